@@ -332,9 +332,9 @@ func Functions() api.FunctionSymbols {
 
 // AllBuiltins lists every function of the table the Lean models have (non-variadic ones).
 var AllBuiltins = []string{"zero", "add", "sub", "div", "mix", "pair", "first", "second", "call1", "call2", "apply", "force",
-	"keyed", "tagged", "typed", "and", "or"}
+	"keyed", "tagged", "typed", "and", "or", "collection", "call"}
 
-// VariadicBuiltins are in the table but outside the interpreter / VM models.
+// VariadicBuiltins: the real variadic functions of the table (in the models as Builtin.collection / call).
 var VariadicBuiltins = []string{"collection", "call"}
 
 func NewContext() *api.Context {
@@ -363,23 +363,46 @@ func valueToks(v interface{}, out []string) []string {
 		out = queryValueToks(x, out)
 		return append(out, ")")
 	case b6.UntypedCollection:
-		out = append(out, "(", "coll")
+		// one token, like the model's Val.other "coll" text: the items observed by cellToks
+		var cells []string
 		i := x.BeginUntyped()
 		for n := 0; n < 64; n++ {
 			ok, err := i.Next()
 			if err != nil {
-				out = append(out, "err")
+				cells = append(cells, "err")
 				break
 			}
 			if !ok {
 				break
 			}
-			out = valueToks(i.Key(), out)
-			out = valueToks(i.Value(), out)
+			cells = cellToks(i.Key(), cells)
+			cells = cellToks(i.Value(), cells)
 		}
-		return append(out, ")")
+		return append(out, "o:coll:"+strings.Join(cells, "_"))
 	}
 	return append(out, strings.ReplaceAll(fmt.Sprintf("o:%T:", v), " ", ""))
+}
+
+// cellToks mirrors B6.Model.Val.cellToks: how a key or value inside a collection is observed.
+func cellToks(v interface{}, out []string) []string {
+	switch x := v.(type) {
+	case int:
+		return append(out, strconv.Itoa(x))
+	case string:
+		return append(out, fmt.Sprintf("x:%x", x))
+	case api.Callable:
+		return append(out, fmt.Sprintf("fn/%d", x.NumArgs()))
+	case api.Pair:
+		out = append(out, "(", "pair")
+		out = cellToks(x.First(), out)
+		out = cellToks(x.Second(), out)
+		return append(out, ")")
+	case b6.Query:
+		return append(out, "q")
+	case b6.UntypedCollection:
+		return append(out, "o:coll")
+	}
+	return append(out, strings.ReplaceAll(fmt.Sprintf("o:%T", v), " ", ""))
 }
 
 // FlattenQuery is the canonical form in which query *values* are compared by C22: nested
